@@ -312,28 +312,39 @@ namespace Pistache
         Entry* pop() override
         {
             PV_YIELD("queue.pop");
-            // Drain the notification before looking at the queue: an entry pushed after the
-            // look leaves the eventfd readable, so its wake-up can not be lost.
-            if (isBound())
+            // An entry that is there is taken without touching the notification: a consumer
+            // that stops before the queue is empty finds the eventfd readable and is woken again.
+            if (auto* entry = Queue<T>::pop())
+                return entry;
+            if (!isBound())
+                return nullptr;
+
+            // Nothing there. Drain the notification before looking once more: an entry pushed
+            // after that look leaves the eventfd readable, so its wake-up can not be lost.
+            uint64_t val;
+            for (;;)
             {
-                uint64_t val;
-                for (;;)
+                ssize_t bytes = read(event_fd, &val, sizeof val);
+                if (bytes == -1)
                 {
-                    ssize_t bytes = read(event_fd, &val, sizeof val);
-                    if (bytes == -1)
+                    if (errno == EAGAIN || errno == EWOULDBLOCK)
+                        break;
+                    else
                     {
-                        if (errno == EAGAIN || errno == EWOULDBLOCK)
-                            break;
-                        else
-                        {
-                            // TODO
-                        }
+                        // TODO
                     }
                 }
             }
 
             PV_YIELD("queue.drained");
-            return Queue<T>::pop();
+            auto* entry = Queue<T>::pop();
+            if (entry)
+            {
+                // its notification has just been drained, and so has that of any entry behind it
+                val = 1;
+                TRY(write(event_fd, &val, sizeof val));
+            }
+            return entry;
         }
 
         Polling::Tag tag() const
